@@ -7,6 +7,7 @@ import (
 	"io"
 	"net"
 	"os"
+	"sort"
 	"time"
 
 	"verif/wire"
@@ -92,10 +93,9 @@ type OffSeq struct {
 // SeqOfOut returns the logical time at which out byte offset (exclusive end)
 // was accepted.
 func (c *Conn) SeqOfOut(end int) int64 {
-	for _, os := range c.WriteSeqs {
-		if os.Off >= end {
-			return os.Seq
-		}
+	i := sort.Search(len(c.WriteSeqs), func(i int) bool { return c.WriteSeqs[i].Off >= end })
+	if i < len(c.WriteSeqs) {
+		return c.WriteSeqs[i].Seq
 	}
 	return 0
 }
@@ -103,10 +103,9 @@ func (c *Conn) SeqOfOut(end int) int64 {
 // SeqOfIn returns the logical time at which the inbound offset (exclusive end)
 // was delivered to the client, zero when never.
 func (c *Conn) SeqOfIn(end int) int64 {
-	for _, os := range c.ReadSeqs {
-		if os.Off >= end {
-			return os.Seq
-		}
+	i := sort.Search(len(c.ReadSeqs), func(i int) bool { return c.ReadSeqs[i].Off >= end })
+	if i < len(c.ReadSeqs) {
+		return c.ReadSeqs[i].Seq
 	}
 	return 0
 }
@@ -188,6 +187,9 @@ func (c *Conn) Write(p []byte) (int, error) {
 	if c.broken != nil {
 		w.log(Event{Kind: "write", Conn: c.Idx, Off: len(c.Out), Err: c.broken.Error()})
 		return 0, c.broken
+	}
+	if len(p) == 0 {
+		return 0, nil // nothing reaches the network
 	}
 	d := WriteDecision{Accept: -1}
 	if w.WritePlan != nil {
